@@ -32,3 +32,19 @@ claim('C09', 'model_checking',
       'Bounded solver check: the real symbolic_op is called on every ordered pair of a stated family of integer expression trees (31 quick / 39 thorough) with all six operators; for every Boolean answer z3 searches a valuation (|n|,|m|,|k|<=8) contradicting it; sat models are replayed by concrete evaluation against the real call. Pairs for which symbolic_op raises TypeError carry no claim.',
       'Trusted: vlib/fsmt integer semantics, z3.',
       'SMT search (z3) for a valuation contradicting each definite answer of symbolic_op', 'E-SMT', 'DESIGN.md#C09')
+claim('C12', 'model_checking',
+      'CrossHair (symbolic execution with z3) runs the real SymbolTable / Scope / CaseInsensitiveDict / CaseInsensitiveDefaultDict through ONE operation from an arbitrary valid pre-state (symbolic Booleans decide the content of a 2-3 level chain) with the key spelling selected by a symbolic index into a pool of case/dimension variants, and confirms over all paths that result and complete post-state equal a reference mapping keyed by the case-folded name; one step from any valid state covers operation sequences of any length within the pools.',
+      'Trusted: CrossHair 0.0.110 + z3; the reference mapping in harness/C12_tables.py. Bounds: names a,b,c; 6/8 spellings; 2-3 levels. Reachability twin per condition.',
+      'CrossHair symbolic execution, one inductive step against a reference mapping', 'E-XH', 'DESIGN.md#C12')
+claim('C13', 'model_checking',
+      'CrossHair confirms over all paths of the real Variable factory that the class of the created symbol follows the documented tier table for every combination of declared type (7 kinds), shape, subscripts, explicit/looked-up type, scope nesting and name spelling, and that a type update through a scope is seen by attached symbols of any spelling and not by detached ones.',
+      'Trusted: CrossHair + z3; tier table transcribed from the docstring. Outside: derived-type member resolution through typedefs.',
+      'CrossHair symbolic execution over pool-indexed type/shape/scope choices', 'E-XH', 'DESIGN.md#C13')
+claim('C21', 'model_checking',
+      'PARTIAL (config-key matching kernel only): CrossHair confirms over all paths that SchedulerConfig.match_item_keys agrees with a reference written from its docstring for every item-name/key pair of stated pools (scoped, type-bound, nested names; plain, scoped and fnmatch keys; case variants) and every flag combination, for single keys, key lists and under case permutation.',
+      'Graph construction, discovery, pruning and edges have no value domain for a solver and are NOT claimed (DESIGN.md section 6).',
+      'CrossHair symbolic execution over pool-indexed names and keys', 'E-XH', 'DESIGN.md#C21')
+claim('C23', 'model_checking',
+      'PARTIAL (item identity / name-handling kernel only): CrossHair explores all pairs of a pool of item names incl. case variants and item classes: equality symmetric and case-insensitive, equal items hash equal, container membership agrees with equality, string comparison, scope_name/local_name and DuplicateKernel naming under case permutation.',
+      'Graph, processing order and generated code under case permutation are NOT claimed (no value domain).',
+      'CrossHair symbolic execution over pool-indexed item names', 'E-XH', 'DESIGN.md#C23')
